@@ -3,6 +3,7 @@ NEXT Next
 CONSTANTS
   MaxItems = 2
   PairItems = 1
+  OptItems = 2
   Emit = TRUE
 INVARIANT ParseRefinesRef
 INVARIANT DumpRefinesRef
